@@ -25,7 +25,8 @@ def load_known(pid):
 
 
 class Result(object):
-    def __init__(self, pid, tier, seed):
+    def __init__(self, pid, tier, seed, level="model_checking"):
+        self.level = level
         self.pid = pid
         self.tier = tier
         self.seed = seed
@@ -109,7 +110,7 @@ class Result(object):
             "property_id": self.pid,
             "tier": self.tier,
             "seed": self.seed,
-            "level": "model_checking",
+            "level": self.level,
             "coverage": cov,
             "assumptions": self.assumptions,
             "wall_s": round(time.time() - self.t0, 2),
